@@ -55,8 +55,14 @@ variables idx \in FirstSet,
           maxdepth = 0,      \* high-water mark of depth (for DepthBounded)
           steps = 0;         \* token-consuming and call steps (termination as safety)
 
+\* a token of kind "bad" is where Tokenizer::next returns a lexical error: the parse fails there and nothing further is read
+define
+  HasBad == \E k \in 1..Len(consumed) : consumed[k][1] = "bad"
+end define;
 macro Fetch(v) begin
-  if ~Lazy then
+  if HasBad \/ (la # <<>> /\ la[1][1] = "bad") then
+     v := EOFTOK;
+  elsif ~Lazy then
      v := IF Len(consumed) + Len(la) + 1 <= Len(Source(idx)) THEN Source(idx)[Len(consumed) + Len(la) + 1] ELSE EOFTOK;
   elsif Len(consumed) + Len(la) >= MaxLen then
      v := EOFTOK;
@@ -78,6 +84,7 @@ Adv:
      cur := tk;
      consumed := Append(consumed, tk);
   end if;
+  if cur[1] = "bad" then err := TRUE; etag := "LexicalError"; end if;
 AdvR: return;
 end procedure;
 
@@ -89,6 +96,7 @@ Pk:
      Fetch(tk);
      la := <<tk>>;
   end if;
+  if la[1][1] = "bad" then err := TRUE; etag := "LexicalError"; end if;
 PkR: return;
 end procedure;
 
@@ -311,13 +319,18 @@ Nxt:  idx := idx + 1;
 End: skip;
 end process;
 end algorithm; *)
-\* BEGIN TRANSLATION (chksum(pcal) = "51b62589" /\ chksum(tla) = "115e91bc")
-\* Procedure variable tk of procedure advance at line 69 col 12 changed to tk_
-\* Procedure variable op of procedure parse_token at line 144 col 39 changed to op_
+\* BEGIN TRANSLATION (chksum(pcal) = "597c61d5" /\ chksum(tla) = "9e5c8d1f")
+\* Procedure variable tk of procedure advance at line 75 col 12 changed to tk_
+\* Procedure variable op of procedure parse_token at line 152 col 39 changed to op_
 CONSTANT defaultInitValue
 VARIABLES pc, idx, last, consumed, cur, la, ret, err, etag, result, done, 
-          depth, maxdepth, steps, stack, tk_, tk, ans, items, key, op_, name, 
-          min, lhs, isnot, op, rbp, a, optok, base, pendingnot
+          depth, maxdepth, steps, stack
+
+(* define statement *)
+HasBad == \E k \in 1..Len(consumed) : consumed[k][1] = "bad"
+
+VARIABLES tk_, tk, ans, items, key, op_, name, min, lhs, isnot, op, rbp, a, 
+          optok, base, pendingnot
 
 vars == << pc, idx, last, consumed, cur, la, ret, err, etag, result, done, 
            depth, maxdepth, steps, stack, tk_, tk, ans, items, key, op_, name, 
@@ -370,20 +383,26 @@ Adv(self) == /\ pc[self] = "Adv"
                         /\ la' = <<>>
                         /\ consumed' = Append(consumed, cur')
                         /\ tk_' = tk_
-                   ELSE /\ IF ~Lazy
-                              THEN /\ tk_' = [tk_ EXCEPT ![self] = IF Len(consumed) + Len(la) + 1 <= Len(Source(idx)) THEN Source(idx)[Len(consumed) + Len(la) + 1] ELSE EOFTOK]
-                              ELSE /\ IF Len(consumed) + Len(la) >= MaxLen
-                                         THEN /\ tk_' = [tk_ EXCEPT ![self] = EOFTOK]
-                                         ELSE /\ \E t \in Alphabet \cup {EOFTOK}:
-                                                   tk_' = [tk_ EXCEPT ![self] = t]
+                   ELSE /\ IF HasBad \/ (la # <<>> /\ la[1][1] = "bad")
+                              THEN /\ tk_' = [tk_ EXCEPT ![self] = EOFTOK]
+                              ELSE /\ IF ~Lazy
+                                         THEN /\ tk_' = [tk_ EXCEPT ![self] = IF Len(consumed) + Len(la) + 1 <= Len(Source(idx)) THEN Source(idx)[Len(consumed) + Len(la) + 1] ELSE EOFTOK]
+                                         ELSE /\ IF Len(consumed) + Len(la) >= MaxLen
+                                                    THEN /\ tk_' = [tk_ EXCEPT ![self] = EOFTOK]
+                                                    ELSE /\ \E t \in Alphabet \cup {EOFTOK}:
+                                                              tk_' = [tk_ EXCEPT ![self] = t]
                         /\ cur' = tk_'[self]
                         /\ consumed' = Append(consumed, tk_'[self])
                         /\ la' = la
+             /\ IF cur'[1] = "bad"
+                   THEN /\ err' = TRUE
+                        /\ etag' = "LexicalError"
+                   ELSE /\ TRUE
+                        /\ UNCHANGED << err, etag >>
              /\ pc' = [pc EXCEPT ![self] = "AdvR"]
-             /\ UNCHANGED << idx, last, ret, err, etag, result, done, depth, 
-                             maxdepth, stack, tk, ans, items, key, op_, name, 
-                             min, lhs, isnot, op, rbp, a, optok, base, 
-                             pendingnot >>
+             /\ UNCHANGED << idx, last, ret, result, done, depth, maxdepth, 
+                             stack, tk, ans, items, key, op_, name, min, lhs, 
+                             isnot, op, rbp, a, optok, base, pendingnot >>
 
 AdvR(self) == /\ pc[self] = "AdvR"
               /\ pc' = [pc EXCEPT ![self] = Head(stack[self]).pc]
@@ -398,20 +417,27 @@ advance(self) == Adv(self) \/ AdvR(self)
 
 Pk(self) == /\ pc[self] = "Pk"
             /\ IF la = <<>>
-                  THEN /\ IF ~Lazy
-                             THEN /\ tk' = [tk EXCEPT ![self] = IF Len(consumed) + Len(la) + 1 <= Len(Source(idx)) THEN Source(idx)[Len(consumed) + Len(la) + 1] ELSE EOFTOK]
-                             ELSE /\ IF Len(consumed) + Len(la) >= MaxLen
-                                        THEN /\ tk' = [tk EXCEPT ![self] = EOFTOK]
-                                        ELSE /\ \E t \in Alphabet \cup {EOFTOK}:
-                                                  tk' = [tk EXCEPT ![self] = t]
+                  THEN /\ IF HasBad \/ (la # <<>> /\ la[1][1] = "bad")
+                             THEN /\ tk' = [tk EXCEPT ![self] = EOFTOK]
+                             ELSE /\ IF ~Lazy
+                                        THEN /\ tk' = [tk EXCEPT ![self] = IF Len(consumed) + Len(la) + 1 <= Len(Source(idx)) THEN Source(idx)[Len(consumed) + Len(la) + 1] ELSE EOFTOK]
+                                        ELSE /\ IF Len(consumed) + Len(la) >= MaxLen
+                                                   THEN /\ tk' = [tk EXCEPT ![self] = EOFTOK]
+                                                   ELSE /\ \E t \in Alphabet \cup {EOFTOK}:
+                                                             tk' = [tk EXCEPT ![self] = t]
                        /\ la' = <<tk'[self]>>
                   ELSE /\ TRUE
                        /\ UNCHANGED << la, tk >>
+            /\ IF la'[1][1] = "bad"
+                  THEN /\ err' = TRUE
+                       /\ etag' = "LexicalError"
+                  ELSE /\ TRUE
+                       /\ UNCHANGED << err, etag >>
             /\ pc' = [pc EXCEPT ![self] = "PkR"]
-            /\ UNCHANGED << idx, last, consumed, cur, ret, err, etag, result, 
-                            done, depth, maxdepth, steps, stack, tk_, ans, 
-                            items, key, op_, name, min, lhs, isnot, op, rbp, a, 
-                            optok, base, pendingnot >>
+            /\ UNCHANGED << idx, last, consumed, cur, ret, result, done, depth, 
+                            maxdepth, steps, stack, tk_, ans, items, key, op_, 
+                            name, min, lhs, isnot, op, rbp, a, optok, base, 
+                            pendingnot >>
 
 PkR(self) == /\ pc[self] = "PkR"
              /\ pc' = [pc EXCEPT ![self] = Head(stack[self]).pc]
@@ -1723,7 +1749,7 @@ M == /\ pc[1] = "M"
 
 Fin == /\ pc[1] = "Fin"
        /\ Assert(Report(idx, SelectSeq(consumed \o la, LAMBDA x : x # EOFTOK), ~err, IF err THEN <<"error", etag>> ELSE result), 
-                 "Failure of assertion at line 308, column 7.")
+                 "Failure of assertion at line 316, column 7.")
        /\ pc' = [pc EXCEPT ![1] = "Nxt"]
        /\ UNCHANGED << idx, last, consumed, cur, la, ret, err, etag, result, 
                        done, depth, maxdepth, steps, stack, tk_, tk, ans, 
